@@ -177,7 +177,7 @@ def c11(tier):
         plan = [(1, 5, [0, 1, 3]), (2, 6, [0, 1, 3]), (3, 7, [0, 1, 3]), (4, 7, [1, 2, 4]), (5, 9, [0, 3]), (8, 11, [1, 4])]
     else:
         plan = [(1, 7, [0, 1, 3]), (2, 8, [0, 1, 3]), (3, 9, [0, 1, 3]), (4, 9, [0, 1, 3]), (5, 10, [1, 2, 4]), (6, 10, [0, 1, 3]),
-                (7, 12, [0, 3]), (8, 13, [1, 4]), (10, 14, [0, 3]), (12, 15, [1, 4]), (16, 18, [0, 3]), (20, 18, [1, 4])]
+                (7, 12, [0, 3]), (8, 13, [1, 4]), (10, 14, [0, 3]), (12, 15, [1, 4]), (16, 16, [0, 3]), (20, 16, [1, 4])]
     for n, L, alpha in plan:
         sc = {"prop": "C11", "cfgs": views(n), "alphabet": alpha, "unit": 1, "maxlen": L}
         run.submit(p1_job, "ehlers-n%d" % n, "MC_Def", sc)
